@@ -409,6 +409,50 @@ def check_case(case, shard, exhaustive=True):
             shard.violate("C17/verify-wrong-exception", f"{type(e).__name__} at {path}", case, "verify_corrupt")
             continue
         shard.violate("C17/verify-accepts-corrupted", f"verify accepted a workspace corrupted at {list(path)}", {**case, "corrupt_path": list(path)}, "verify_corrupt")
+    # --- the same through ONE pyhf.Workspace object with a past: digested and verified first, then a deep copy edited in
+    # place at a leaf, finally the object itself edited in place - verification and digest must see every edit
+    try:
+        W = pyhf.Workspace(copy.deepcopy(ws))
+    except Exception:
+        W = None
+    if W is not None:
+        hist_probs = []
+        try:
+            ps.verify(W)
+            for alg in list(doc["metadata"]["digests"]) + ["sha256"]:
+                pyhf.utils.digest(W, algorithm=alg)
+            hl = [pth for pth, _ in leaves(ws)]
+            for path in rng.sample(hl, min(8, len(hl))) + ["<in-place>"]:
+                if path == "<in-place>":
+                    path = rng.choice(hl)
+                    badW = W
+                    parent = _walk_t(badW, path[:-1])
+                    if path[-1] == "<drop-last>":
+                        parent.pop()
+                    else:
+                        parent[path[-1]] = _walk_t(corrupt(ws, path), path[:-1])[path[-1]]
+                    how = f"the verified object edited in place at {list(path)}"
+                else:
+                    badW = corrupt(W, path)
+                    how = f"a deep copy of the verified object edited at {list(path)}"
+                if json.loads(json.dumps(badW)) == ws:
+                    continue
+                for alg in list(doc["metadata"]["digests"]):
+                    if pyhf.utils.digest(badW, algorithm=alg) != ref_digest(json.loads(json.dumps(badW)), alg):
+                        hist_probs.append(f"digest({alg}) of {how} is not the digest of its content")
+                        break
+                try:
+                    ps.verify(badW)
+                    hist_probs.append(f"verify accepted {how}")
+                except E.PatchSetVerificationError:
+                    pass
+        except Exception as e:
+            hist_probs.append(f"{type(e).__name__}: {str(e)[:150]}")
+        if hist_probs:
+            shard.violate("C17/verify-after-history", "; ".join(hist_probs[:3]), case, "verify_corrupt")
+        else:
+            shard.ok("verify_corrupt")
+            shard.covered("object_histories", "Workspace object digested, then copies and the object itself edited in place")
     # --- one recorded digest wrong (only informative with two algorithms)
     algs = list(doc["metadata"]["digests"])
     for a in algs:
